@@ -1,7 +1,7 @@
 (* Props/C07.v -- statements claimed for C07 (heat diffusion and kernel), about Model/Heat.v over R. *)
 From Coq Require Import List Arith Reals.
 From LaPyV Require Import Base.Scalar Base.Vec3 Base.ListAux Base.Sparse Model.TetMesh Model.TriaAdj Model.Fem Model.Heat
-  Proofs.SparseP Proofs.FemTriaP Proofs.FemTetP Proofs.PoissonP Proofs.HeatP.
+  Proofs.SparseP Proofs.FemTriaP Proofs.FemTetP Proofs.PoissonP Proofs.HeatP Proofs.HeatAddP.
 Import ListNotations.
 Open Scope R_scope.
 
@@ -58,3 +58,14 @@ Theorem C07_diagonal_is_kernel_at_p_eq_q : forall ts xs evecs evals n,
   heat_diagonal Rops ts xs evecs evals n = map (fun x => map (fun t => kernel_at Rops t evals (nth x evecs []) (nth x evecs []) n) ts) xs.
 Proof. exact heat_diagonal_is_kernel_diagonal. Qed.
 Print Assumptions C07_diagonal_is_kernel_at_p_eq_q.
+
+(* additive over seed sets: solutions for b1, b2 and b1 + b2 (e.g. indicators of disjoint seed sets), from any solver, satisfy
+   u12 = u1 + u2 on every vertex of the mesh *)
+Theorem C07_diffusion_additive_over_seed_sets : forall v ts t n (u1 u2 u12 b1 b2 : nat -> R), tria_nondeg v ts -> 0 <= t ->
+  let H := heat_matrix Rops t (fem_tria_A Rops v ts) (fem_tria_B Rops true v ts) in
+  in_range n H ->
+  (forall k, (k < n)%nat -> mulvec_at Rops H u1 k = b1 k) -> (forall k, (k < n)%nat -> mulvec_at Rops H u2 k = b2 k) ->
+  (forall k, (k < n)%nat -> mulvec_at Rops H u12 k = b1 k + b2 k) ->
+  forall a b c, In (a, b, c) ts -> u12 a = u1 a + u2 a /\ u12 b = u1 b + u2 b /\ u12 c = u1 c + u2 c.
+Proof. exact tria_heat_additive. Qed.
+Print Assumptions C07_diffusion_additive_over_seed_sets.
